@@ -672,7 +672,7 @@ func TestTrees(t *testing.T) {
 	if vev.ReplayFile() != "" {
 		t.Skip()
 	}
-	vev.Rapid(t, rec, 0, vev.N(5000, 500000), func(rt *rapid.T) {
+	vev.Rapid(t, rec, 0, vev.N(5000, 250000), func(rt *rapid.T) {
 		c, f := genDoc(rt, false)
 		for k := range f {
 			rec.Count("feature/"+k, 1)
